@@ -5,6 +5,7 @@
 #include <algorithm>
 #include <cstring>
 #include <set>
+#include <stdexcept>
 
 namespace sim {
 
@@ -350,7 +351,7 @@ std::vector<Elem> scan(const std::string& x)
             while (j < n && (std::isalnum((unsigned char)x[j]) || x[j] == '_' || x[j] == ':'))
                 ++j;
             if (j == nb) {
-                if (j < n && x[j] != '>' && x[j] != '/')
+                if (j < n && x[j] != '>' && !(x[j] == '/' && j + 1 < n && x[j + 1] == '>'))
                     ++j;
                 continue;
             }
@@ -434,7 +435,20 @@ std::vector<Elem> scan(const std::string& x)
 }
 }  // namespace
 
+static std::string apply_struct_fault_unchecked(const std::string& x, int fault, Rng& rng, std::string& desc);
+
 std::string apply_struct_fault(const std::string& x, int fault, Rng& rng, std::string& desc)
+{
+    // the tolerant scanner works on damaged input too; an out-of-range cut simply means "fault not applicable"
+    try {
+        return apply_struct_fault_unchecked(x, fault, rng, desc);
+    } catch (const std::out_of_range&) {
+        desc = std::string{struct_fault_name(fault)} + " (not applicable)";
+        return x;
+    }
+}
+
+static std::string apply_struct_fault_unchecked(const std::string& x, int fault, Rng& rng, std::string& desc)
 {
     auto elems = scan(x);
     if (elems.empty())
@@ -599,7 +613,17 @@ std::string apply_random_token_fault_text(const std::string& text, Rng& rng, std
     return text;
 }
 
+static std::string apply_random_token_fault_xml_unchecked(const std::string& x, Rng& rng, std::string& desc);
 std::string apply_random_token_fault_xml(const std::string& x, Rng& rng, std::string& desc)
+{
+    try {
+        return apply_random_token_fault_xml_unchecked(x, rng, desc);
+    } catch (const std::out_of_range&) {
+        desc = "token fault (not applicable)";
+        return x;
+    }
+}
+static std::string apply_random_token_fault_xml_unchecked(const std::string& x, Rng& rng, std::string& desc)
 {
     auto elems = scan(x);
     std::vector<const Elem*> c;
